@@ -29,8 +29,8 @@ def explore(case, bound, menu=default_menu, horizon=None, timeout=60.0):
         yield rec
         if len(dev) >= bound:
             continue
-        for pos in range(len(rec.calls) - 1, start - 1, -1):
-            ent = rec.calls[pos]
+        for pos in range(len(rec.points) - 1, start - 1, -1):
+            ent = rec.points[pos]
             if ent["alt"] is not None:
                 continue
             if horizon is not None and not horizon(rec, pos, ent, len(dev)):
